@@ -83,7 +83,7 @@ theorem C14_quorum (E : Env) (s : St) (e : Nat) (c : CertRec) (h : newCert E s e
 theorem C14_inserts_newCert (E : Env) (s : St) (e : Nat) :
     (createCertificate E s e).certs = match newCert E s e with | some c => s.certs ++ [c] | none => s.certs := by
   rw [createCertificate_eq]
-  split <;> rfl
+  cases newCert E s e <;> rfl
 
 /-- the quorum the harness instantiates: at least `k` distinct lottery indices on the table -/
 theorem C14_quorum_idx (k : Nat) (rows : List SigRow) :
